@@ -423,6 +423,68 @@ func waiter(name string) vs.Scenario {
 	}
 }
 
+// retryTwice: ONE Retry(n) value is called twice; the first call fails once
+// and then succeeds, the second call fails every attempt with its own errors.
+// The second call makes at most n attempts and reports only failures of its
+// own attempts (none of the first call, which succeeded).
+func retryTwice(kind string, n int) vs.Scenario {
+	return func() (func(), func(*vs.End) (string, string)) {
+		call, attempts := 0, [2]int{}
+		first := errors.New("first-call-attempt-failed")
+		var r1, r2 error
+		body := func() {
+			ctx := context.Background()
+			next := func() error {
+				attempts[call]++
+				if call == 0 {
+					if attempts[0] == 1 {
+						return first
+					}
+					return nil
+				}
+				return errN(attempts[1])
+			}
+			switch kind {
+			case "Worker.Retry":
+				w := fun.Worker(func(context.Context) error { return next() }).Retry(n)
+				r1 = w(ctx)
+				call = 1
+				r2 = w(ctx)
+			case "Producer.Retry":
+				w := fun.Producer[int](func(context.Context) (int, error) { return 1, next() }).Retry(n)
+				_, r1 = w(ctx)
+				call = 1
+				_, r2 = w(ctx)
+			case "Processor.Retry":
+				w := fun.Processor[int](func(context.Context, int) error { return next() }).Retry(n, 1)
+				r1 = w(ctx)
+				call = 1
+				r2 = w(ctx)
+			}
+		}
+		check := func(e *vs.End) (string, string) {
+			if t, d := endTag(e); t != "" {
+				return t, d
+			}
+			where := fmt.Sprintf("%s(%d) called twice", kind, n)
+			if r1 != nil {
+				return "failure-reported-although-an-attempt-succeeded", where + ": first call: " + r1.Error()
+			}
+			if attempts[1] > n {
+				return "too-many-attempts", where + fmt.Sprintf(": second call made %d attempts", attempts[1])
+			}
+			if r2 == nil {
+				return "retry/no-failure-reported", where + ": the second call failed every attempt but returned nil"
+			}
+			if errors.Is(r2, first) {
+				return "retry/reports-failures-of-an-earlier-call", where + ": the second call's error contains a failure of the first call, which succeeded: " + r2.Error()
+			}
+			return "", ""
+		}
+		return body, check
+	}
+}
+
 // rewait: the waiter is first called with a context that is already over (that
 // call may return at once), then again with a live context: the second call
 // may not complete before the background execution has, and reports its result.
@@ -642,6 +704,18 @@ func order(name string) vs.Scenario {
 			case "Worker.Join":
 				_ = lw("a").Join(lw("b"), lw("c"))(ctx)
 				want = "a b c"
+			case "Worker.Join(slice reused by the caller)":
+				parts := []fun.Worker{lw("b"), lw("c")}
+				w := lw("a").Join(parts...)
+				parts[0], parts[1] = lw("x"), lw("y") // the caller's slice is the caller's
+				_ = w(ctx)
+				want = "a b c"
+			case "Operation.Join(slice reused by the caller)":
+				parts := []fun.Operation{lop("b"), lop("c")}
+				w := lop("a").Join(parts...)
+				parts[0], parts[1] = lop("x"), lop("y")
+				w(ctx)
+				want = "a b c"
 			case "Worker.PreHook":
 				_ = lw("main").PreHook(lop("pre"))(ctx)
 				want = "pre main"
@@ -761,6 +835,11 @@ func build(tier string) ([]runner.Instance, time.Duration) {
 		add("rewait/"+name, "rewait/"+name, bound, rewait(name))
 	}
 	for _, kind := range []string{"Worker.Retry", "Producer.Retry", "Processor.Retry"} {
+		for n := 2; n <= 3; n++ {
+			add("retry/"+kind, fmt.Sprintf("retry-twice/%s/n=%d", kind, n), 0, retryTwice(kind, n))
+		}
+	}
+	for _, kind := range []string{"Worker.Retry", "Producer.Retry", "Processor.Retry"} {
 		for n := 1; n <= 3; n++ {
 			if n == 3 && tier != "thorough" {
 				continue
@@ -770,7 +849,7 @@ func build(tier string) ([]runner.Instance, time.Duration) {
 			}
 		}
 	}
-	for _, name := range []string{"Operation.Join", "Operation.PreHook", "Operation.PostHook", "Worker.Join", "Worker.PreHook", "Worker.PostHook", "Producer.PreHook", "Producer.PostHook", "Processor.Join", "Processor.PreHook", "Processor.PostHook", "Handler.Join", "Handler.PreHook", "Future.PreHook", "Future.PostHook"} {
+	for _, name := range []string{"Operation.Join", "Operation.Join(slice reused by the caller)", "Operation.PreHook", "Operation.PostHook", "Worker.Join", "Worker.Join(slice reused by the caller)", "Worker.PreHook", "Worker.PostHook", "Producer.PreHook", "Producer.PostHook", "Processor.Join", "Processor.PreHook", "Processor.PostHook", "Handler.Join", "Handler.PreHook", "Future.PreHook", "Future.PostHook"} {
 		add("order/"+name, "order/"+name, 0, order(name))
 	}
 	return out, budget
